@@ -300,10 +300,14 @@ static void sink_input(struct upipe *upipe, struct uref *uref, struct upump **up
     if (guard_armed && ++guard_count > guard_budget) {
         char key[128];
         snprintf(key, sizeof(key), "nonterm:%s", guard_what);
-        vh_violation_noabort(key, "sink %s received more than %llu buffers during one call",
+        guard_armed = false;
+        vh_violation_noabort(key, "sink %s received more than %llu buffers during one call: the pipe does not terminate",
                              s->name, (unsigned long long)guard_budget);
         fflush(stdout);
-        _exit(3);
+        /* same convention as the pipe laboratory: the driver reads the key
+         * from stderr and the SIGABRT handler of vh.c prints the case */
+        fprintf(stderr, "VH-ABORT-KEY %s\n", key);
+        abort();
     }
     if (s->n == s->cap) {
         s->cap = s->cap ? s->cap * 2 : 32;
@@ -349,6 +353,11 @@ static void sink_input(struct upipe *upipe, struct uref *uref, struct upump **up
         enum udict_type type = UDICT_TYPE_END;
         while (ubase_check(udict_iterate(uref->udict, &name, &type)) &&
                type != UDICT_TYPE_END) {
+            /* tracked separately: NAL offsets, header size, error / key flags */
+            if (name && (!strncmp(name, "h26x.n[", 7) || !strcmp(name, "b.header")))
+                continue;
+            if (type == UDICT_TYPE_FLOW_ERROR || type == UDICT_TYPE_PIC_KEY)
+                continue;
             uint64_t a = vh_hash_mix(0x1234, (uint64_t)type);
             if (name) a = vh_hash_bytes(a, name, strlen(name));
             size_t vs = 0;
